@@ -25,6 +25,8 @@ class Host:
     sep = ''
     # layouts: 0 is canonical (exact text oracle applies); others are non-canonical variants
     n_layouts = 1
+    canonical = True          # layout 0 is rendered canonically (exact text oracle applies)
+    skip_ops: tuple[str, ...] = ()   # operations not meaningful for this host (behaviours containing them are skipped)
     target: Any = None        # parse target (models.File by default)
 
     # ---- TLA+ constants -------------------------------------------------
@@ -79,6 +81,21 @@ class Host:
 
     def payload_value(self, payload: Any) -> Any:
         return payload
+
+    def set_val(self, obj: Any, val: int) -> None:
+        """Edit an item through the item object itself so that it denotes `val`."""
+        ty, _ = self.proj(obj)
+        target = self.make(ty, val, None)
+        if isinstance(obj, models.BlockComment):
+            obj.value = target.value
+        elif isinstance(obj, models.MetaItem):
+            obj.key = target.key
+        elif isinstance(obj, (models.Open, models.Close, models.Posting)):
+            obj.account = target.account
+        elif isinstance(obj, models.Amount):
+            obj.number = target.number
+        else:
+            obj.value = target.value
 
 
 # ---------------------------------------------------------------------------
@@ -294,5 +311,78 @@ class Postings(Host):
     def locate(self, file):
         return next(d for d in file.raw_directives if isinstance(d, models.Transaction))
 
+class CostComponents(Host):
+    """components of a unit cost: {amount, date, label} (only the raw view exists)."""
+    name = 'cost.components'
+    types = ('Amt', 'Date', 'Str')
+    views = {'raw_components': ('raw', ('Amt', 'Date', 'Str'))}
+    sepb, sep = '', ', '
+    n_layouts = 2
 
-HOSTS: dict[str, Host] = {h.name: h for h in [Currencies(), TagsLinks(), Meta(), PostingMeta(), TxnMeta(), Directives(), Postings()]}
+    def item_text(self, ty, val, payload=None):
+        return {'Amt': f'{val} EUR', 'Date': f'2000-01-0{val}', 'Str': f'"l{val}"'}[ty]
+
+    def make(self, ty, val, payload=None):
+        if ty == 'Amt':
+            return models.Amount.from_value(decimal.Decimal(val), 'EUR')
+        if ty == 'Date':
+            return models.Date.from_value(datetime.date(2000, 1, val))
+        return models.EscapedString.from_value(f'l{val}')
+
+    def value(self, ty, val):
+        return val
+
+    def proj(self, node):
+        if isinstance(node, models.Amount):
+            return 'Amt', int(node.number)
+        if isinstance(node, models.Date):
+            return 'Date', node.value.day
+        return 'Str', int(node.value[1:])
+
+    def wrap(self, body, layout):
+        if layout == 0:
+            return '2000-01-01 *\n    Assets:A  1 USD {' + body + '}\n'
+        return '2000-01-01 * "p"\n    Assets:Z  -1 USD\n    Assets:A  1 USD {' + body + '} @ 2 CAD ; ic\n        pk: 1\n'
+
+    def locate(self, file):
+        txn = file.raw_directives[0]
+        return next(p.cost.raw_cost for p in txn.raw_postings if p.cost is not None)
+
+
+class CustomValues(Host):
+    """values of a custom directive: strings and numbers (negative numbers next to numbers need care)."""
+    name = 'custom.values'
+    types = ('Str', 'Num')
+    views = {'raw_values': ('raw', ('Str', 'Num')), 'values': ('str', ('Str', 'Num'))}
+    sepb, sep = ' ', ' '
+    n_layouts = 1
+    canonical = False       # (-2) in the parsed text vs -2 written by the API: spelling is not prescribed
+    skip_ops = ('remove', 'discard')   # node equality is textual: '(-2)' and '-2' are different nodes
+
+    def item_text(self, ty, val, payload=None):
+        if ty == 'Str':
+            return f'"s{val}"'
+        return '1' if val == 1 else '(-2)'
+
+    def make(self, ty, val, payload=None):
+        if ty == 'Str':
+            return models.EscapedString.from_value(f's{val}')
+        return models.NumberExpr.from_value(decimal.Decimal(1 if val == 1 else -2))
+
+    def value(self, ty, val):
+        return f's{val}' if ty == 'Str' else decimal.Decimal(1 if val == 1 else -2)
+
+    def proj(self, node):
+        if isinstance(node, models.EscapedString):
+            return 'Str', int(node.value[1:])
+        return 'Num', 1 if node.value == 1 else (2 if node.value == -2 else -1)
+
+    def wrap(self, body, layout):
+        return f'2000-01-01 custom "t"{body}\n    kk: 1\n'
+
+    def locate(self, file):
+        return file.raw_directives[0]
+
+
+HOSTS: dict[str, Host] = {h.name: h for h in [Currencies(), TagsLinks(), Meta(), PostingMeta(), TxnMeta(), Directives(), Postings(),
+                                              CostComponents(), CustomValues()]}
